@@ -244,6 +244,7 @@ def judge_bs(case) -> Outcome:
         R[np.isnan(xv)] = np.nan
         return (R if inc else R[:, 1:]), oob
 
+    ut = np.unique(tt)
     gaps = np.diff(np.unique(tt))
     mingap = float(gaps.min()) if len(gaps) else 1.0
     atol = 1e-9 + 2e3 * np.finfo(float).eps * max(abs(lo), abs(hi), 1e-300) / max(mingap, 1e-300) * (k + 1)
@@ -261,6 +262,15 @@ def judge_bs(case) -> Outcome:
             rows &= ~((xe <= lo) if ext != "extend" else (xe == lo))
         if upper_over:
             rows &= ~((xe >= hi) if ext != "extend" else (xe == hi))
+        if ext == "extend" and len(ut) >= 2:
+            # the polynomial of an outermost interval that is only a few ulps wide (a quantile knot that misses the bound by
+            # rounding) continues with coefficients ~ (span/width)^degree: no implementation's digits mean anything there
+            if ut[1] - ut[0] < 1e-6 * (hi - lo):
+                rows &= ~(xe < lo)
+                out.see("ill_conditioned_extension_rows_skipped")
+            if ut[-1] - ut[-2] < 1e-6 * (hi - lo):
+                rows &= ~(xe > hi)
+                out.see("ill_conditioned_extension_rows_skipped")
         if not np.allclose(Mx[rows], Rr[rows], atol=atol, rtol=1e-7, equal_nan=True):
             bad = np.argwhere(~np.isclose(Mx, Rr, atol=atol, rtol=1e-7, equal_nan=True) & rows[:, None])
             r = bad[0][0]
